@@ -200,6 +200,30 @@ type Runner struct {
 	Workers    int
 	Boost      int
 	Timeout    time.Duration
+	// InflightDir, when set, receives one file per worker holding the case that worker is
+	// executing right now (removed when the case returns). A panic in a goroutine of the
+	// implementation, a fatal runtime error or a kill takes the whole process down and cannot be
+	// recovered in-process: the files left behind then name the candidates, which the caller
+	// re-executes one by one to find the crashing case.
+	InflightDir string
+}
+
+func (rn *Runner) markInflight(w int, s Stream, c any, caseNo int) string {
+	if rn.InflightDir == "" {
+		return ""
+	}
+	enc, err := s.Encode(c)
+	if err != nil {
+		return ""
+	}
+	rf := ReplayFile{Property: s.Property(), Stream: s.Name(), Seed: rn.Seed, CaseNo: caseNo,
+		Class: "CRASH", Summary: "the correspondence harness process died while this case was being executed", Case: enc}
+	b, _ := json.Marshal(rf)
+	p := filepath.Join(rn.InflightDir, fmt.Sprintf("%d.json", w))
+	if os.WriteFile(p, b, 0o644) != nil {
+		return ""
+	}
+	return p
 }
 
 func (rn *Runner) runOne(d *Driver, s Stream, c any) caseResult {
@@ -311,6 +335,7 @@ func (rn *Runner) Run(prop string, streams []Stream) (*Report, error) {
 		var firstErr error
 		for w := 0; w < rn.Workers; w++ {
 			wg.Add(1)
+			w := w
 			go func() {
 				defer wg.Done()
 				d, err := StartDriver(rn.DriverPath)
@@ -324,7 +349,13 @@ func (rn *Runner) Run(prop string, streams []Stream) (*Report, error) {
 				}
 				defer d.Close()
 				for j := range jobs {
+					infl := rn.markInflight(w, j.s, j.c, j.caseNo)
 					r := rn.runOne(d, j.s, j.c)
+					if infl != "" && r.class != "HANG" {
+						// (a case that hangs keeps running in its goroutine and may still bring the
+						// process down later: its file stays)
+						os.Remove(infl)
+					}
 					if r.class == "PROTOCOL" && strings.Contains(r.summary, "driver died") {
 						d.Close()
 						d, _ = StartDriver(rn.DriverPath)
